@@ -124,3 +124,39 @@ func refVerify(blob []byte, content []byte, cert *x509.Certificate) (bool, strin
 	}
 	return false, fmt.Sprintf("no signer for issuer/serial %s", cert.SerialNumber)
 }
+
+// refSigningTime returns the signingTime attribute's UTCTime string of the
+// first signer (ContentInfo-wrapped or bare SignedData).
+func refSigningTime(blob []byte) string {
+	var outer refContentInfo
+	sdBytes := blob
+	if rest, err := asn1.Unmarshal(blob, &outer); err == nil && outer.Type.Equal(refOIDSignedData) && len(rest) == 0 {
+		sdBytes = outer.Content.Bytes
+	}
+	var sd refSignedData
+	if _, err := asn1.Unmarshal(sdBytes, &sd); err != nil || len(sd.SignerInfos) == 0 {
+		return ""
+	}
+	signed := append([]byte{0x31}, sd.SignerInfos[0].AuthAttrs.FullBytes[1:]...)
+	var attrs []refAttribute
+	if _, err := asn1.UnmarshalWithParams(signed, &attrs, "set"); err != nil {
+		return ""
+	}
+	for _, a := range attrs {
+		if a.Type.Equal(asn1.ObjectIdentifier{1, 2, 840, 113549, 1, 9, 5}) {
+			var rv asn1.RawValue
+			if _, err := asn1.Unmarshal(a.Value.Bytes, &rv); err == nil {
+				return string(rv.Bytes)
+			}
+		}
+	}
+	return ""
+}
+
+func simpleCertParse(raw []byte) *x509.Certificate {
+	c, err := x509.ParseCertificate(raw)
+	if err != nil {
+		panic(err)
+	}
+	return c
+}
